@@ -357,6 +357,135 @@ def canon_obj(v):
         return tuple(canon_obj(x) for x in v)
     return v
 
+# ---------------------------------------------------------------------------------------------
+# whole-package state observation (independent of how or where state is declared)
+
+KNOWN_CACHE_ATTRS = {'face_triangles', 'spherical_triangles', '_inverse_triangle_cache', '_invocations'}
+
+def _deep(v, depth, seen):
+    """canonical, hashable picture of a value: floats by bit pattern, containers structurally, objects by their attributes (the three
+    known caches and the CRS call counter left out), cycles and depth cut"""
+    import types
+    if isinstance(v, float):
+        return ('f', fbits(v))
+    if v is None or isinstance(v, (bool, int, str, bytes)):
+        return v
+    if isinstance(v, (types.ModuleType, types.FunctionType, types.BuiltinFunctionType, type, types.MethodType)) or callable(v) and not hasattr(v, '__dict__'):
+        return ('callable', getattr(v, '__qualname__', repr(type(v))))
+    if id(v) in seen or depth <= 0:
+        return ('ref', type(v).__name__)
+    seen = seen | {id(v)}
+    if isinstance(v, (list, tuple)):
+        return (type(v).__name__, tuple(_deep(x, depth - 1, seen) for x in v))
+    if isinstance(v, (set, frozenset)):
+        return ('set', tuple(sorted(repr(_deep(x, depth - 1, seen)) for x in v)))
+    if isinstance(v, dict):
+        return ('dict', tuple(sorted((repr(k), repr(_deep(x, depth - 1, seen))) for k, x in v.items())))
+    d = getattr(v, '__dict__', None)
+    if isinstance(d, dict):
+        return ('obj', type(v).__name__, tuple(sorted((k, repr(_deep(x, depth - 1, seen))) for k, x in d.items() if k not in KNOWN_CACHE_ATTRS)))
+    if hasattr(v, '__slots__'):
+        return ('obj', type(v).__name__, tuple((k, repr(_deep(getattr(v, k, None), depth - 1, seen))) for k in v.__slots__))
+    return ('other', type(v).__name__, repr(v)[:80])
+
+def package_state(mods):
+    """{location: canonical picture} of everything that can hold state in the package: module globals, class attributes, function
+    attributes, default arguments and closure cells of every function/method defined in it"""
+    import types
+    out = {}
+    for mname, m in sorted(mods.items()):
+        for k, v in sorted(vars(m).items()):
+            if k.startswith('__') or isinstance(v, types.ModuleType):
+                continue
+            if isinstance(v, type) and getattr(v, '__module__', '') == mname:
+                for ck, cv in sorted(vars(v).items()):
+                    if ck.startswith('__'):
+                        continue
+                    f = cv.__func__ if isinstance(cv, (staticmethod, classmethod)) else cv
+                    if isinstance(f, types.FunctionType):
+                        out.update(_function_places(f'{mname}:{k}.{ck}', f))
+                    elif not callable(cv) and not isinstance(cv, property):
+                        out[f'{mname}:{k}.{ck} (class attribute)'] = _deep(cv, 6, frozenset())
+            elif isinstance(v, types.FunctionType):
+                if getattr(v, '__module__', '') == mname:
+                    out.update(_function_places(f'{mname}:{k}', v))
+            elif not isinstance(v, type) and not callable(v) or hasattr(v, '__dict__') and not isinstance(v, (type, types.FunctionType)):
+                if getattr(type(v), '__module__', '').startswith('typing'):
+                    continue
+                out[f'{mname}:{k}'] = _deep(v, 7, frozenset())
+    return out
+
+def _function_places(name, f):
+    out = {}
+    if getattr(f, '__dict__', None):
+        out[name + ' (function attributes)'] = _deep(dict(f.__dict__), 5, frozenset())
+    if f.__defaults__:
+        out[name + ' (default arguments)'] = _deep(f.__defaults__, 5, frozenset())
+    if f.__kwdefaults__:
+        out[name + ' (keyword defaults)'] = _deep(f.__kwdefaults__, 5, frozenset())
+    if f.__closure__:
+        cells = []
+        for c in f.__closure__:
+            try:
+                cells.append(c.cell_contents)
+            except ValueError:
+                cells.append(None)
+        out[name + ' (closure)'] = _deep(cells, 5, frozenset())
+    return out
+
+def state_observation(rng, ncalls, ntransient):
+    """(1) persistent: no call may leave ANY package state different from before (the three fill-only caches and the CRS counter aside);
+    (2) transient: while a call runs, no module-level container may be changed, even if it is restored before the call returns"""
+    a5, mods = fresh_a5()
+    problems = []
+    calls = api_calls(rng, ncalls) + global_workload(rng, 12)
+    before = package_state(mods)
+    changed_places = set()
+    for name, args in calls:
+        try:
+            call(a5, name, args)
+        except Exception:
+            pass
+        after = package_state(mods)
+        for k in sorted(set(before) | set(after)):
+            if before.get(k) != after.get(k) and k not in changed_places:
+                changed_places.add(k)
+                problems.append(f'{name}{str(args)[:60]} leaves package state changed at `{k}` (not one of the fill-only caches)')
+        before = after
+    # transient changes: shallow fingerprints of every module-level container at each line event inside the library
+    libdir = os.path.join(os.path.realpath(REPO), 'a5')
+    conts = {}
+    for mname, m in mods.items():
+        for k, v in vars(m).items():
+            if isinstance(v, (list, dict, set)) and not k.startswith('__'):
+                conts[f'{mname}:{k}'] = v
+    def fp():
+        return tuple((n, len(c), hash(tuple(map(id, c))) if isinstance(c, list) else hash(tuple(map(id, c.keys()))) if isinstance(c, dict) else len(c)) for n, c in conts.items())
+    seen_t = set()
+    for name, args in (calls[:ntransient] + [('cell_to_children', (0, 1)), ('get_res0_cells', ()), ('uncompact', ([0], 1)), ('compact', ([c for c in a5.cell_to_children(0, 1)],))]):
+        base = fp()
+        hit = []
+        def tr(frame, event, arg):
+            if not frame.f_code.co_filename.startswith(libdir):
+                return None
+            if event == 'line' and not hit:
+                now = fp()
+                if now != base:
+                    bad = [b[0] for a, b in zip(base, now) if a != b]
+                    hit.append((bad, os.path.basename(frame.f_code.co_filename), frame.f_lineno))
+            return tr
+        sys.settrace(tr)
+        try:
+            call(a5, name, args)
+        except Exception:
+            pass
+        finally:
+            sys.settrace(None)
+        if hit and hit[0][0] and tuple(hit[0][0]) not in seen_t:
+            seen_t.add(tuple(hit[0][0]))
+            problems.append(f'{name}{str(args)[:60]} modifies the shared container(s) {hit[0][0]} while it runs (seen at {hit[0][1]}:{hit[0][2]}), whether or not it restores them')
+    return problems, {'state_places_observed': len(before), 'state_calls': len(calls), 'containers_watched': len(conts)}
+
 def runtime_discipline(rng, ncalls):
     """run sampled API calls on a cold copy with logging proxies on the caches; every cache write must store the value a
     fresh instance computes for that key, no slot may be overwritten with a different value, tables must stay unchanged"""
